@@ -1,0 +1,10 @@
+//go:build verif
+
+package conn
+
+// VerifReadMessage reads one message from the connection on the calling goroutine,
+// exactly as the read loop of a started Conn does. For the verification harness:
+// the Conn must not have been started.
+func (c *Conn) VerifReadMessage() (*Message, error) {
+	return c.readMessage()
+}
